@@ -1,5 +1,5 @@
 import CedarVerif.Lemmas.PartialTable2
-import CedarVerif.Lemmas.PartialSound5
+import CedarVerif.Lemmas.PartialSound6
 import CedarVerif.Lemmas.PartialReauth
 import CedarVerif.Lemmas.PartialFull
 import CedarVerif.Lemmas.PartialBridge
@@ -61,14 +61,19 @@ def PinterpSoundFull : Prop :=
 
 /-- **pinterp_sound_partial**: `PinterpSoundFull` restricted to the fragment `Frag` (literals, `principal`/
 `action`/`resource`/`context` incl. unknown — typed or untyped — principal/action/resource and a missing
-context, slots, `&&`, `||`, `if`, every unary operator, the nine store-free binary operators incl. the
-typed-unknown `==` short circuits, `.`/`has` on records and entities, `like`, `is` incl. its typed-unknown short
-circuit), a concrete store, and context/attribute values that survive `Value.toExpr` (`DRT`; trivial for
-primitives).  The residual is evaluated the way `reauthorize` does it (same interpreter, mapper σ, concretised
+context, slots, `&&`, `||`, `if`, every unary operator, all twelve binary operators — the nine store-free ones incl.
+the typed-unknown `==` short circuits, and `in` / `getTag` / `hasTag` on the complete store —, `.`/`has` on records
+and entities, `like`, `is` incl. its typed-unknown short circuit, set constructors and extension-function calls with
+the `split` semantics: all components values ⇒ a value, otherwise a residual set / call with the values converted back
+to expressions; calls for functions satisfying `CallDRT` — proved for the comparison, predicate and conversion
+functions in `callDRT_decimalCmp`, `callDRT_unaryPrim`, `callDRT_isInRange`; for the constructors it is the print/parse
+round trip of the canonical rendering), a concrete store, and context/attribute/tag values that survive `Value.toExpr`
+(`DRT`; trivial for primitives).  The residual is evaluated the way `reauthorize` does it (same interpreter, mapper σ, concretised
 request); `Sem` = equal values, or both errors (error classes may differ).  Proved by induction on the
 fragment, for every first-pass mapper, partial request and fuel.
-Missing w.r.t. the full statement: set/record/extension-call constructors, `in`/`getTag`/`hasTag`, unknowns in
-the policy text, residual contexts, unknown attribute values, `.partial()` stores, and the `subst`-form. -/
+Missing w.r.t. the full statement: record constructors (their residuals are record literals, which `.`/`has`
+project into and re-interpret), `CallDRT` for the extension constructors, unknowns in the policy text, residual
+contexts, unknown attribute values, `.partial()` stores, and the `subst`-form. -/
 theorem pinterp_sound_partial (σ : Mapper) (req : Request) (es : Entities) (env : SlotEnv)
     (hctx : (Value.record req.context).DRT) (hstore : StoreDRT es) {e : Expr} (hf : Frag e)
     (m0 : Mapper) (preq : PRequest) (n : Nat) (hC : Concretizes σ preq req) :
@@ -99,12 +104,37 @@ example :
         (.and (.binaryApp .eq (.unknown "principal" (some (.entity "U"))) (.lit (.entityUID ⟨"U", "a"⟩))) (.lit (.bool true))))
       (evaluate req [] [] e) := by
   intro σ req preq e
-  have hf : Frag e := .and (.binaryApp .eq rfl (.var _) (.lit _)) (.unaryApp .not (.hasAttr "x" (.var _)))
+  have hf : Frag e := .and (.binaryApp .eq (.var _) (.lit _)) (.unaryApp .not (.hasAttr "x" (.var _)))
   have hC : Concretizes σ preq req := ⟨⟨rfl, rfl⟩, rfl, rfl, rfl⟩
   have hctx : (Value.record req.context).DRT := ⟨RT_emptyRecord, trivial⟩
   have hst : StoreDRT [] := by intro u d h; cases h
   have h := pinterp_sound_partial σ req [] [] hctx hst hf [] preq 10 hC
   exact ⟨⟨_, rfl⟩, h⟩
+
+/-- non-vacuity for the constructors and the store-dependent operators: `[principal, User::"b"].contains(resource.owner)
+    && context.d.lessThan(context.lim) && principal in Group::"g"` with an unknown principal is in the fragment and leaves
+    a residual containing a residual set and a residual `in`. -/
+example :
+    let e : Expr := .and (.binaryApp .contains (.set [.var .principal, .lit (.entityUID ⟨"User", "b"⟩)]) (.getAttr (.var .resource) "owner"))
+                     (.and (.call "lessThan" [.getAttr (.var .context) "d", .getAttr (.var .context) "lim"])
+                           (.binaryApp .mem (.var .principal) (.lit (.entityUID ⟨"Group", "g"⟩))))
+    let preq : PRequest := ⟨.unknown (some "User"), .known ⟨"A", "x"⟩, .known ⟨"R", "r"⟩,
+      some (.value [("d", .ext (.decimal 10000)), ("lim", .ext (.decimal 20000))])⟩
+    Frag e ∧ ∃ r, pinterp [] preq (.ofConcrete [(⟨"R", "r"⟩, ⟨[("owner", .prim (.entityUID ⟨"User", "b"⟩))], [], []⟩)]) [] 10 e = .res r := by
+  intro e preq
+  refine ⟨?_, _, rfl⟩
+  refine .and (.binaryApp .contains (.set ?_) (.getAttr "owner" (.var _)))
+    (.and (.call "lessThan" (by decide) (callDRT_decimalCmp _ (Or.inl rfl)) ?_) (.binaryApp .mem (.var _) (.lit _)))
+  · intro x hx
+    simp only [List.mem_cons, List.not_mem_nil, or_false] at hx
+    rcases hx with rfl | rfl
+    · exact .var _
+    · exact .lit _
+  · intro x hx
+    simp only [List.mem_cons, List.not_mem_nil, or_false] at hx
+    rcases hx with rfl | rfl
+    · exact .getAttr "d" (.var _)
+    · exact .getAttr "lim" (.var _)
 
 /-- **reauthorize_eq_fresh** (given soundness of the residuals at policy level).  If the substitution concretises
 the partial request to `req'`, no residual kept a template slot (otherwise `reauthorize` panics — the recorded
